@@ -59,10 +59,11 @@ pub fn classify(e: &minilua::LuaError) -> LuaEnd {
             let m = &e.msg;
             if m.contains("Assert failed!") {
                 LuaEnd::AssertFailed
-            } else if let Some(p) = m.find("!!CRASH!!: Reached unreachable code on line ") {
-                let rest = &m[p + "!!CRASH!!: Reached unreachable code on line ".len()..];
-                let n: String = rest.chars().take_while(|c| c.is_ascii_digit()).collect();
-                LuaEnd::Unreachable(n.parse().unwrap_or(0))
+            } else if m.contains("!!CRASH!!") && m.to_lowercase().contains("unreachable") {
+                // a reached `<!>`: the source line is the last number of the message, whatever its wording
+                let p = m.find("!!CRASH!!").unwrap();
+                let last = m[p..].split(|c: char| !c.is_ascii_digit()).filter(|x| !x.is_empty()).last().map(|x| x.to_string());
+                LuaEnd::Unreachable(last.and_then(|d| d.parse().ok()).unwrap_or(0))
             } else if m.contains("!!CRASH!!") {
                 LuaEnd::Crash(m.clone())
             } else if m.contains("stack overflow") {
